@@ -12,11 +12,15 @@ H.append({"name":"H_bsdiff","tiers":Q,"scale":"b2","preemptions":1,"bounds":"bsd
   "param_sets":[{"n0":a,"n1":n,"parts":p,"policy":q} for a in (3,6) for n in (5,9,13) for p in (1,2,3) for q in (0,1,2)]})
 H.append({"name":"H_rediff","tiers":Q,"scale":"b2","preemptions":-1,"bounds":"optimizer analysis + rewrite under every iteration order of its maps: new file sharing one block with each of two old files (tie) and a no-tie control",
   "param_sets":[{"shape":0},{"shape":1}]})
+H.append({"name":"H_diff","tiers":Q,"scale":"b2","preemptions":-1,"novalidate":True,"bounds":"SMT predictive race query over the event trace of the differ pipeline (diff / sign / reader goroutines, multiread, taskgroup, io.Pipe), with and without short reads",
+  "param_sets":[{"n0":4,"n1":3,"slicing":s,"policy":0,"race":1} for s in (0,1)]})
+H.append({"name":"H_bsdiff","tiers":Q,"scale":"b2","preemptions":-1,"novalidate":True,"bounds":"race query over the bsdiff scanner's worker / dispatcher / collector goroutines and the suffix-sort goroutines, partitions 1..3",
+  "param_sets":[{"n0":6,"n1":n,"parts":p,"policy":0,"race":1} for n in (9,13) for p in (1,2,3)]})
 H.append({"name":"H_diff","tiers":T,"scale":"b2","preemptions":2,"bounds":"<=2 preemptions, sizes (4,3),(5,2); with and without short reads","max_seconds":1700,
   "param_sets":[{"n0":a,"n1":b,"slicing":s,"policy":p} for (a,b) in ((4,3),(5,2)) for s in (0,1) for p in (0,1)]})
 H.append({"name":"H_bsdiff","tiers":T,"scale":"b2","preemptions":2,"bounds":"old 2..8, new 5..17, partitions 1..4, <=2 preemptions","max_seconds":1700,
   "param_sets":[{"n0":a,"n1":n,"parts":p,"policy":q} for a in (2,5,8) for n in (5,9,17) for p in (1,2,4) for q in (0,1)]})
 json.dump({"property":"C15","package":"c15","scale":scale,"harnesses":H,
  "stubs":["os -> memfs, md5/protobuf models","cooperative scheduler: switches only at visible operations (sound for data-race-free code); delay/preemption-bounded with several default policies","map iteration order explored exhaustively (rediff)"],
- "outside":["GOMAXPROCS as such (subsumed by interleaving semantics for DRF code)","schedules beyond the bound","the data-race half of the property: see the race query status in DESIGN.md"]},open("config.json","w"),indent=1)
+ "outside":["GOMAXPROCS as such (subsumed by interleaving semantics for DRF code)","schedules beyond the bound","races that need a different channel pairing than the observed one; races inside modelled packages"]},open("config.json","w"),indent=1)
 for h in H: print(h["name"],h["tiers"],h.get("scale"),len(h.get("param_sets",[1])))
